@@ -99,6 +99,7 @@ def run_property(prop: str, tier: str, seed: int, repo: str) -> dict[str, Any]:
         "contracts_only_in_other_tier": skipped,
         "vacuity": {"contracts": len(mine), "contracts_with_obligations": 0, "covers": 0, "covers_sat": 0},
     }
+    needs_input: set = set()
     for res in results:
         con = all_contracts[res["contract"]]
         if res.get("engine_error"):
@@ -156,6 +157,8 @@ def run_property(prop: str, tier: str, seed: int, repo: str) -> dict[str, Any]:
                                              f"{json.dumps(rep)[:800]} model={json.dumps(ob['model'])}")
                         continue
                 out["violations"].append(viol)
+                if not viol["has_input"]:
+                    needs_input.add(res["contract"])
         if not is_known_mode:
             out["vacuity"]["covers"] += res["covers"]["total"]
             out["vacuity"]["covers_sat"] += res["covers"]["sat"]
@@ -172,6 +175,30 @@ def run_property(prop: str, tier: str, seed: int, repo: str) -> dict[str, Any]:
                 "status": "verified" if counts["failed"] == 0 and counts["undecided"] == 0 else
                           ("obligation(s) refuted" if counts["failed"] else "not fully decided"),
             })
+    # a refuted obligation without an input (a loop invariant, a state after a cut loop): look for a
+    # concrete failing input with the loops run as they are on small inputs, and replay it natively
+    for cname in sorted(needs_input):
+        try:
+            res = _task((repo, cname, timeout_ms, "small", open_ids))
+        except Exception:  # pylint: disable=broad-except
+            continue
+        if res.get("engine_error") or res["out_of_subset"]:
+            continue
+        for ob in res["obligations"]:
+            if ob["status"] != "failed" or not ob["input_only"] or not ob["model"] or ob["kind"] == "unwind":
+                continue
+            rep = native_replay(repo, cname, ob["model"])
+            if rep.get("status") != "reproduced":
+                continue
+            for viol in out["violations"]:
+                if viol["contract"] == cname and not viol["has_input"]:
+                    viol["has_input"] = True
+                    viol["model"] = ob["model"]
+                    viol["native_replay"] = rep
+                    viol["input_found_by"] = ("counterexample search: the same contract with its loops run as they are "
+                                              f"(no invariants) on sequences of <= 2 elements; obligation {ob['name']}")
+                    viol["detail"] = f"{rep.get('detail', '')} | {viol['detail']}"
+            break
     out["inlined"] = sorted(out["inlined"])
     out["assumptions"] = sorted(out["assumptions"])
     out["trusted_base"] = [
